@@ -500,6 +500,26 @@ pub fn check(o: &CheckOpts) -> i32 {
         findings.push(Finding { file: path, class, case, known: kn, confidence: "n/a".into() });
     }
 
+    // ambient perturbation: same calls, exec'd process (new ASLR layout, pid, time), scrambled environment, other cwd
+    let amb = oracle::ambient_recheck(&pool, if t.name == "thorough" { 4 } else { 12 }, &format!("{}/.work", o.verif), w, o.seed);
+    if amb.ran {
+        println!("ambient recheck: {} calls re-evaluated in an exec'd process with scrambled environment, {} compared, {} differ", amb.calls, amb.compared, amb.mismatches.len());
+    } else {
+        println!("ambient recheck: not run ({})", amb.reason);
+    }
+    for (k, (call, a, b)) in amb.mismatches.iter().enumerate().take(2) {
+        raw_violations += 1;
+        let case = Case { threads: vec![vec![call.clone()]], churn: vec![vec![]], start: 0, switches: vec![] };
+        let rr = RunResult {
+            status: "violation".into(),
+            rec: json!({"violation": {"kind": "isolated_nondeterminism", "detail": "differs between a forked child of the driver and a freshly exec'd process with another environment / address-space layout", "call": call.to_json(), "expected": a, "observed": b, "client": 0, "call_no": 0}}),
+        };
+        let class = (call.ev.name().to_string(), "isolated_nondeterminism".to_string());
+        let kn = match_known(&known, &class, &case);
+        let path = write_replay_file(&o.verif, &format!("{}-ambient{}", o.seed, k), o.seed, t.name, &json!({"phase": "ambient_recheck"}), &case, &rr, "n/a", None);
+        findings.push(Finding { file: path, class, case, known: kn, confidence: "n/a".into() });
+    }
+
     // ---- determinism self-check (reported, never a verdict)
     let det_n = ((t.det_seeds as f64) * o.scale).max(20.0) as usize;
     let det_tmo = Duration::from_millis(800);
@@ -759,6 +779,8 @@ pub fn check(o: &CheckOpts) -> i32 {
             "no_verdict_runs": {"inconclusive_step_cap": inconc, "lost_control": lost, "crashed": crashed, "degraded": degraded},
             "determinism_selfcheck": {"seeds": det_n, "comparisons": det_compared, "mismatches": det_mismatch, "worker_counts": [w, 4.min(w), 1]},
             "uncontrolled_sources": audit,
+            "ambient_recheck": {"ran": amb.ran, "reason": amb.reason, "calls": amb.calls, "compared": amb.compared, "mismatches": amb.mismatches.len(),
+                                "perturbed": ["address-space layout (fresh exec, ASLR)", "pid", "wall-clock time", "environment variables (cleared and scrambled: TZ, LANG, LC_ALL, HOME, PATH, TMPDIR, RUST_BACKTRACE, RUST_MIN_STACK)", "working directory"]},
             "raw_violating_runs": raw_violations,
             "miri_pass": mo.as_ref().map(|m| m.to_json()).unwrap_or(json!({"ran": false, "reason": "disabled by VERIF_NO_MIRI"})),
             "replay_files": findings.iter().map(|f| json!({"file": f.file, "evaluator": f.class.0, "kind": f.class.1, "known": f.known, "replay_confidence": f.confidence})).collect::<Vec<_>>(),
